@@ -470,7 +470,7 @@ OPTION_LISTS = [(("DeviceID", 4), ("ChannelID", 1)), (("RTP", 0),), (("DeviceID"
                 (("ChannelID", 1), ("DeviceID", 4), ("ChannelID", 1)), (("RTP", 0), ("RTP", 0)), (("XPTIndex", 1), ("XPTIndex", 1), ("XPTIndex", 1))]
 
 
-@contract("HSTRP.as_bytes", "okdmr.dmrlib.hytera.pdu.hstrp:HSTRP.as_bytes", ["C12", "C19"], stubs=["HDAP.get_hdap_checksum"])
+@contract("HSTRP.as_bytes", "okdmr.dmrlib.hytera.pdu.hstrp:HSTRP.as_bytes", ["C12", "C19", "C17"], stubs=["HDAP.get_hdap_checksum"])
 def hstrp_frame(vc, kind, opts=(), inner=None):
     """precondition (in-range): the option flag of the type octet is set exactly when the option list is not empty - a
     set flag with an empty list has no representation in the format (the parser reads the payload as options)"""
@@ -505,7 +505,10 @@ def _hstrp_shapes(tier):
             if tier != "quick" or (i + j) % 3 == 0 or (j >= 5 and i < 2):
                 out.append(dict(kind="data", opts=[list(x) for x in ol], inner=inner))
     out.append(dict(kind="ack", inner=nest[0]))
-    out.append(dict(kind="data", opts=[list(x) for x in OPTION_LISTS[0]]))
+    # messages that END with their option chain (no application payload), incl. chains whose last option is empty
+    for ol in OPTION_LISTS:
+        out.append(dict(kind="data", opts=[list(x) for x in ol]))
+        out.append(dict(kind="connect", opts=[list(x) for x in ol]))
     return out
 
 
